@@ -160,8 +160,11 @@ impl<'a> Packet<'a> {
             r is Ok ==> r.unwrap()@.len() <= 1400 && packet_on_wire(*self, r.unwrap()@),
     { unimplemented!() }
 }
-#[verifier::external_body]
-fn vx_clone_contents(p: &PacketContents) -> (r: PacketContents) ensures r == *p, { unimplemented!() }
+// stand-in for `#[derive(Clone)] struct PacketContents` (field-wise clone) and arrayvec's Clone
+impl Clone for PacketContents {
+    fn clone(&self) -> (r: Self) ensures r == *self,
+    { PacketContents { num_chunks: self.num_chunks, data: self.data.clone() } }
+}
 
 impl ResendChunk {
     spec fn wf(&self) -> bool { self.sequence.wf() && self.data.wf() && self.data@.len() <= 1390 }
